@@ -7,7 +7,14 @@
    [original] is kept for the refutations.  Every dereference of a member of a
    remote message that the code performs without a nil check is an explicit
    [Panic]; every acquisition of helloMu by the goroutine that already holds
-   it is an explicit [Stuck]. *)
+   it is an explicit [Stuck].
+
+   The read goroutine does not end at the FederationClient: processMessage hands
+   the (rewritten) message to ClientSession.SendMessage, and filterMessage runs
+   in the same goroutine.  Its dereferences are part of the model: the entries of
+   a room/join event ([filter_join]) and the unchecked entry["sessionId"].(string)
+   on the entries of a participants/update event ([session_filter_panics], after
+   [update_users] = FederationClient.updateEventUsers). *)
 From Coq Require Import List ZArith NArith Bool String.
 From Verif Require Import gen.Params.
 Import ListNotations.
@@ -38,8 +45,24 @@ Inductive etype := YUpdate | YFlags | YMessage | YJoin | YLeave | YInvite | YDis
 (* entry of event.join / event.change: JSON null, or an entry with a session id
    (0 = the session id the remote gave the federated session in its hello) *)
 Inductive jentry := JNil | JSid (n : N).
-(* entry of update.users / update.changed: null, {} , {"sessionId":1}, {"sessionId":"x"} *)
-Inductive uentry := UNil | UNoSid | UBadSid | USid.
+(* entry of update.users / update.changed (a JSON object decoded into a
+   map[string]interface{}, or null).  The code reads two members of it as a
+   session id, "sessionId" (CheckValid, updateEventUsers, ClientSession.filterMessage)
+   and "sessionid" (updateEventUsers only); each is
+     VNone  missing,
+     VBad   present but not a JSON string (number, null, object),
+     VOwn   the string the remote gave the federated session as its id in the hello,
+     VStr   any other string;
+   and the pair actorType / actorId (updateEventUsers rewrites them when both are
+   strings): missing, both strings of a local user, both strings of a federated
+   user of the local server, actorId / actorType not a string. *)
+Inductive sidv := VNone | VBad | VOwn | VStr.
+Inductive actor := ANone | AUser | AFedLocal | ABadId | ABadType.
+Inductive uentry := UNil | UEnt (up lo : sidv) (a : actor).
+(* {} , {"sessionId":1}, {"sessionId":"x"} *)
+Definition UNoSid : uentry := UEnt VNone VNone ANone.
+Definition UBadSid : uentry := UEnt VBad VNone ANone.
+Definition USid : uentry := UEnt VStr VNone ANone.
 
 Record hello_s := mkH { h_sid : bool; h_resume : bool; h_server : bool }.  (* sessionid / resumeid non-empty; server present *)
 Record sr_s := mkSR { sr_sender : bool; sr_recipient : bool }.
@@ -241,7 +264,38 @@ Definition process_hello (v : variant) (wf : bool) (s0 : fstate) (m : server_msg
     end.
 
 (* ---- processMessage + ClientSession.filterMessage --------------------------------- *)
-Definition is_sid (u : uentry) : bool := match u with USid => true | _ => false end.
+(* v.(string) succeeds *)
+Definition is_str (v : sidv) : bool := match v with VOwn | VStr => true | _ => false end.
+(* entry["sessionId"].(string) succeeds (a null entry is a nil map: the lookup gives nil) *)
+Definition is_sid (u : uentry) : bool := match u with UEnt up _ _ => is_str up | UNil => false end.
+
+(* FederationClient.updateEventUsers(users, local, remote), called when the remote
+   session id is known: the id of an entry is its string "sessionId", else its
+   string "sessionid"; the FIRST entry whose id is the remote id of the federated
+   session gets the local id -- always under the key "sessionId" (the inner
+   [key := "sessionid"] of the source is shadowed) -- and the search stops.  The
+   actor members are rewritten in place (strings stay strings). *)
+Definition entry_id (u : uentry) : sidv :=
+  match u with
+  | UNil => VNone
+  | UEnt up lo _ => if is_str up then up else if is_str lo then lo else VNone
+  end.
+Definition is_own (v : sidv) : bool := match v with VOwn => true | _ => false end.
+Fixpoint update_users (l : list uentry) : list uentry :=
+  match l with
+  | [] => []
+  | u :: r =>
+      if is_own (entry_id u)
+      then match u with UEnt _ lo a => UEnt VStr lo a :: r | UNil => u :: r end
+      else u :: update_users r
+  end.
+(* what processMessage hands to the session: changed and users, each rewritten on its own *)
+Definition rewrite_update (sid : bool) (u : upd_s) : upd_s :=
+  if sid then mkU (update_users (u_changed u)) (update_users (u_users u)) else u.
+(* ClientSession.filterMessage on participants/update: entry["sessionId"].(string),
+   unchecked, for every entry of users and then of changed *)
+Definition session_filter_panics (u : upd_s) : bool :=
+  negb (forallb is_sid (u_users u ++ u_changed u)).
 Definition non_nil (j : jentry) : bool := match j with JNil => false | JSid _ => true end.
 Definition memN (x : N) (l : list N) : bool := existsb (N.eqb x) l.
 
@@ -278,8 +332,8 @@ Definition process_event (s : fstate) (m : server_msg) (e : event_s) : res * boo
       match e_update e with
       | None => ((s, [], Panic), false)                  (* msg.Event.Update.… / m.Users *)
       | Some u =>
-          (* filterMessage: entry["sessionId"].(string) for users, then changed *)
-          (panic_if (negb (forallb is_sid (u_users u ++ u_changed u))) s f, false)
+          (* updateEventUsers, then in the session filterMessage *)
+          (panic_if (session_filter_panics (rewrite_update sid u)) s f, false)
       end
   | GParticipants, YFlags => (panic_if ((chg || sid) && negb (e_flags e)) s f, false)
   | GParticipants, YMessage => (panic_if (chg && negb (e_message e)) s f, false)
